@@ -46,6 +46,7 @@ class Extracted:
         self._check_normalized_dictionary()
         self.simpl_template, self.simpl_flags = self._simplification_template()
         self.sanitize_ops = self._sanitize_ops()
+        self.relsplit_guarded = self._relsplit_guarded()
         self._check_translate_numerals()
         self._check_simplify()
 
@@ -137,7 +138,14 @@ def _normalize(self):
     self._dictionary = new_dict
     self._relative_strings = list(map(normalize_unicode, self._relative_strings))
 '''
-        if _norm_fingerprint(f.node) != _norm_fingerprint(ast.parse(src).body[0]):
+        # model parameter: which of two spellings that normalise to the same key survives (the table order decides the rest)
+        src_first = src.replace("            new_dict[normalized] = value\n", "            new_dict.setdefault(normalized, value)\n")
+        fp = _norm_fingerprint(f.node)
+        if fp == _norm_fingerprint(ast.parse(src).body[0]):
+            self.norm_first_wins = False
+        elif fp == _norm_fingerprint(ast.parse(src_first).body[0]):
+            self.norm_first_wins = True
+        else:
             raise AnalysisError(RULE, "NormalizedDictionary._normalize no longer matches the modelled conflict policy")
 
     def _simplification_template(self):
@@ -166,6 +174,19 @@ def _normalize(self):
             if not _re.search(frag, t):
                 raise AnalysisError(RULE, "_generate_simplifications shape changed (missing %r)" % frag)
         return tmpl.pop(), _flags(flags.pop())
+
+    def _relsplit_guarded(self):
+        """Dictionary.split applies the relative split expression only when the locale has counted patterns (otherwise the
+        expression has an empty alternative and matches between any two non-word characters)"""
+        from ..core.ctx import conjuncts, enclosing_tests
+        f = self.ctx.ix.func("dateparser.languages.dictionary:Dictionary.split")
+        for n in iter_own_nodes(f.node):
+            if isinstance(n, ast.Call) and isinstance(n.func, ast.Attribute) and n.func.attr == "split" and "relative" in ast.unparse(n.func.value):
+                for t, pol in enclosing_tests(f.node, n):
+                    for a, p in conjuncts(t, pol):
+                        if p and ast.unparse(a) in ("self._relative_strings", "len(self._relative_strings) > 0", "self._relative_strings != []"):
+                            return True
+        return False
 
     def _sanitize_ops(self):
         """[(compiled regex | 'strip' , replacement)] as sanitize_date applies them"""
@@ -302,6 +323,8 @@ class LocaleModel:
                     n = normalize_unicode(key)
                     if key != n and n in d:
                         conflicts.append(key)
+                    elif self.ex.norm_first_wins:
+                        nd.setdefault(n, val)
                     else:
                         nd[n] = val
                 sp = self.info.get("skip", []) + self.info.get("pertain", [])
